@@ -169,6 +169,8 @@ M = [
  ('load-resets-localize-T-of-integrator-grids', 'ocp.py', "            return pickle.load(open(name,\"rb\"))", "            ocp = pickle.load(open(name,\"rb\"))\n        for s in ocp.iter_stages(include_self=True):\n            g = getattr(s._method, 'time_grid', None)\n            if hasattr(g, 'cache'): g.localize_T = False\n        return ocp", ['C18']),
  # --- batch 14
  ('root-pcontrol-plus-next-node', 'sampling_method.py', "                                                               p_control_plus=self.get_p_control_plus_at(stage, k),\n                                                               v=self.V, p=veccat(*self.P),\n                                                               v_control=self.get_v_control_at(stage, k),\n                                                               v_control_plus=self.get_v_control_plus_at(stage, k),\n                                                               signals=(self.signals, self.get_signals_at_fraction(stage, k, (i+float(self.tau[j]))/self.M)),", "                                                               p_control_plus=self.get_p_control_plus_at(stage, k+1),\n                                                               v=self.V, p=veccat(*self.P),\n                                                               v_control=self.get_v_control_at(stage, k),\n                                                               v_control_plus=self.get_v_control_plus_at(stage, k),\n                                                               signals=(self.signals, self.get_signals_at_fraction(stage, k, (i+float(self.tau[j]))/self.M)),", ['C09']),
+ # --- batch 15
+ ('dc-signal-at-step-end', 'direct_collocation.py', "            subgrid+=list((i+np.array(self.tau))/self.M)", "            subgrid+=list((i+np.array(self.tau)*0+1.0)/self.M)", ['C17']),
 ]
 
 def main():
